@@ -96,7 +96,9 @@ func (i *ReceiverInterceptor) BindRemoteStream(
 			}
 			nlen, err := newPkt.MarshalTo(b)
 
-			return nlen, attr, err
+			// the packet handed on is not the one that was just read: what the
+			// attributes say (cached header, arrival information) is about the other packet
+			return nlen, make(interceptor.Attributes), err
 		}
 
 		return n, attr, ErrPopWhileBuffering
